@@ -3,6 +3,8 @@
 # Applies a seeded change to a scratch worktree of /repo's main, runs the property's check against it,
 # prints the verdict line, and removes the change again.  Exit 0 = the check caught it (exit 1 + VIOLATION).
 id="$1"; patch="$(readlink -f "$2")"; tier="${3:-quick}"
+# one seeded run per property at a time (they share the scratch worktree)
+exec 9>/tmp/seedtest-$id.lock; flock 9
 wt=/tmp/seedwt-$id
 cd "$(dirname "$0")/.." || exit 2
 if [ ! -d "$wt" ]; then git -C /repo worktree add --detach "$wt" main >/dev/null 2>&1 || exit 2; fi
